@@ -46,7 +46,7 @@ PM1 = re.compile(r'(__pyx_v_[A-Za-z0-9_]+|\d+)\s([+-])\s(?=(?:\d+|\(?__pyx_v_[A-
 SWAP = {"<": "<=", "<=": "<", ">": ">=", ">=": ">", "==": "!=", "!=": "=="}
 NOISE = ("unlikely(", "PyErr", "__PYX_ERR", "NULL", "Py_None", "__Pyx_", "goto ", "PyObject", "__pyx_L", "memview", "->data", "strides", "suboffsets",
          "__pyx_v_kind", "__pyx_v_itemsize", "__pyx_v_dtype", "__pyx_v_self->ndim", "__pyx_v_self->_shape", "__pyx_v_arg_", "__pyx_v_dest_sig", "__pyx_v_candidates",
-         "__pyx_v_info", "__pyx_v_flags", "__pyx_v_bufmode", "__pyx_v_mode", "__pyx_v_format")
+         "line_table_length", "__pyx_v_info", "__pyx_v_flags", "__pyx_v_bufmode", "__pyx_v_mode", "__pyx_v_format")
 
 
 def blocks_of(path):
